@@ -31,6 +31,7 @@ def campaign(c):
     for i in range(2 if c.quick else 12):
         netscen.run_scenario(c, c.rng.fork('optgrid%d' % i), 'ip', ['opt-grid'], project)
     netscen.run_scenario(c, c.rng.fork('nonemit'), 'ip', ['non-emitting'], project)
+    netscen.run_scenario(c, c.rng.fork('ports'), 'ip', ['port-classes'], project)
     for i in range(3 if c.quick else 30):
         netscen.run_scenario(c, c.rng.fork('fanout%d' % i), 'ip', ['fan-out'], project)
     for i in range(2 if c.quick else 12):
